@@ -896,8 +896,9 @@ def special (x : Ctx) (q : String) : Option (Q String) :=
   | "iupac", "contains" => some do
     let kind ← qlift next
     let a ← qlift parseS; let b ← qlift parseS
-    if kind ≠ "seq" ∧ kind ≠ "slice" then throw (.badOp "contains kind")
+    if kind ≠ "seq" ∧ kind ≠ "slice" ∧ kind ≠ "arr" then throw (.badOp "contains kind")
     let l ← qr (evalS x a); let r ← qr (evalS x b)
+    if kind = "arr" ∧ ¬ arrLens.contains (Seq.len x.c l) then throw .unsup
     pure (boolStr (Translation.contains x.c l r))
   | "dna", "conv" => some do
     let target ← qlift next
